@@ -66,7 +66,7 @@ func nilEmpty(g value.Value) {
 	}
 }
 
-var opts = gval.Opts{MaxDepth: 3, MaxWidth: 4, NoNaN: true}
+var opts = gval.Opts{MaxDepth: 3, MaxWidth: 4, NoNaN: true, OddIP: true}
 
 // mutate returns a value "near" v: one scalar changed, entries reordered, a key
 // replaced, an element's type changed, a summary's count changed…
@@ -122,6 +122,9 @@ func mutate(t *rapid.T, v *ref.V, depth int) *ref.V {
 		c.S = hex.EncodeToString(b)
 	case ref.TIP4:
 		b, _ := hex.DecodeString(c.S)
+		if len(b) != 4 {
+			return gval.DrawOfType(t, opts, c.T, 1, false)
+		}
 		b[rapid.IntRange(0, 3).Draw(t, "octet")] ^= byte(rapid.IntRange(1, 255).Draw(t, "xor"))
 		c.S = hex.EncodeToString(b)
 	case ref.TIntArr, ref.TLongArr, ref.TFloatArr:
@@ -274,7 +277,14 @@ func isScalar(t byte) bool {
 func roundTrip(g value.Value) value.Value {
 	o := wio.NewDataOutputX()
 	value.WriteValue(o, g)
-	return value.ReadValue(wio.NewDataInputX(append([]byte(nil), o.ToByteArray()...)))
+	// the receiver decodes out of its receive buffer and then uses the buffer for the next message: the decoded value
+	// is the caller's from then on (seed C20-s24)
+	buf := append([]byte(nil), o.ToByteArray()...)
+	v := value.ReadValue(wio.NewDataInputX(buf))
+	for i := range buf {
+		buf[i] = ^buf[i]
+	}
+	return v
 }
 
 type call struct {
@@ -439,6 +449,13 @@ func TestTypeMatrix(t *testing.T) {
 			for _, c := range []byte{ref.TNull, ref.TIntMap, ref.TDouble} {
 				specLaws.RunCase(t, Triple{A: rep(a), B: rep(b), C: rep(c)})
 			}
+		}
+	}
+	// an IPv4 value constructed from a 16-byte (IPv6) address, or from no address at all, against every type (seed C20-s22)
+	for _, odd := range []string{"20010db8000000000000000000000001", "", "7f0000"} {
+		for _, b := range ref.AllTypes {
+			specLaws.RunCase(t, Triple{A: &ref.V{T: ref.TIP4, S: odd}, B: rep(b), C: &ref.V{T: ref.TBlob, S: odd}})
+			specLaws.RunCase(t, Triple{A: rep(b), B: &ref.V{T: ref.TIP4, S: odd}, C: &ref.V{T: ref.TIP4, S: "00000000"}})
 		}
 	}
 }
